@@ -327,6 +327,39 @@ pub fn run_synth(a: &Args) {
         out.case(l.s(), r.s(), true); out.count(if c64 { "synth.class64" } else { "synth.class32" });
         if img.len() < 3000 { let mut l = Line::new("c14"); l.bytes(&img); out.case(l.s(), &got, true); out.count("synth.model_compared"); }
     } } } }
+    // the same module read from (this process's own) memory and from its bytes gives the same answers: images whose
+    // addresses equal their file offsets, mapped at a fresh address; the dynamic string table address is NOT relocated
+    {
+        use minidump_writer::module_reader::ProcessReader;
+        let mut images: Vec<(String, Vec<u8>)> = Vec::new();
+        let mut pie = crate::tiny::TINY_ELF.to_vec();
+        for i in 0..3 { let o = 0x40 + 56 * i; let off: [u8; 8] = pie[o + 8..o + 16].try_into().unwrap(); pie[o + 16..o + 24].copy_from_slice(&off); pie[o + 24..o + 32].copy_from_slice(&off); }
+        images.push(("fixture".into(), pie));
+        for (phdrs, shdrs, split, notes) in [(true, true, false, 1u8), (true, false, false, 2), (true, false, true, 3), (false, true, false, 1), (true, true, true, 0)] {
+            let text: Vec<u8> = (0..150).map(|_| rng.next() as u8).collect(); let id: Vec<u8> = (0..20).map(|_| rng.next() as u8).collect();
+            let lead: Vec<(&[u8], &[u8], u32)> = if notes >= 2 { vec![(b"Go", &id[..4], 4)] } else { vec![] };
+            images.push((format!("gen{}{}{}{notes}", phdrs as u8, shdrs as u8, split as u8), synth_elf_gen(true, phdrs, shdrs, split, &text, &lead, if notes > 0 { Some(&id) } else { None }, 4)));
+        }
+        for (tag, img) in images {
+            let len = (img.len() + 4095) / 4096 * 4096;
+            let m = unsafe { libc::mmap(std::ptr::null_mut(), len + 4096, libc::PROT_READ | libc::PROT_WRITE, libc::MAP_PRIVATE | libc::MAP_ANONYMOUS, -1, 0) } as *mut u8;
+            if m as isize == -1 { continue; }
+            unsafe { std::ptr::copy_nonoverlapping(img.as_ptr(), m, img.len()); libc::munmap(m.add(len) as *mut libc::c_void, 4096); }
+            let (addr, pid) = (m as usize, std::process::id() as i32);
+            let mut padded = img.clone(); padded.resize(len, 0);
+            let id_mem = match quiet_catch(move || BuildId::read_from_module(ProcessReader::new(pid, addr).into()).map(|x| x.0)) { Err(_) => "2".to_string(), Ok(Err(_)) => "1".to_string(), Ok(Ok(v)) => { let mut l = Line::bare(); l.u(0).bytes(&v); l.0 } };
+            let so_mem = match quiet_catch(move || SoName::read_from_module(ProcessReader::new(pid, addr).into()).map(|x| x.0.into_bytes())) { Err(_) => "2".to_string(), Ok(Err(_)) => "1".to_string(), Ok(Ok(v)) => { let mut l = Line::bare(); l.u(0).bytes(&v); l.0 } };
+            unsafe { libc::munmap(m as *mut libc::c_void, len); }
+            // (1) against the answers for the bytes (memory and file agree)
+            let id_bytes = impl_build_id(&img);
+            let i2 = img.clone(); let so_bytes = match quiet_catch(move || SoName::read_from_module((&i2[..]).into()).map(|x| x.0.into_bytes())) { Err(_) => "2".to_string(), Ok(Err(_)) => "1".to_string(), Ok(Ok(v)) => { let mut l = Line::bare(); l.u(0).bytes(&v); l.0 } };
+            let mut l = Line::new("const"); l.0.push_str(&format!(" {id_bytes} ff {so_bytes}")); let mut r = Line::bare(); r.0 = format!("{id_mem} ff {so_mem}");
+            out.case(l.s(), r.s().trim(), true); out.count(&format!("process_memory.{tag}"));
+            // (2) against the model run in process mode
+            let mut l = Line::new("c14p"); l.u(addr as u64).bytes(&padded); out.case(l.s(), &id_mem, true);
+            let mut l = Line::new("c14p_soname"); l.u(addr as u64).bytes(&padded); out.case(l.s(), &so_mem, true);
+        }
+    }
     // SONAME of well-formed images, every length around the file-name limit and well beyond it, from memory and from a file
     for len in [1usize, 2, 11, 63, 64, 254, 255, 256, 257, 300, 1000, 4095, 4096, 5000] {
         let name: String = (0..len).map(|i| (b'a' + ((i * 7 + len) % 26) as u8) as char).collect();
